@@ -174,7 +174,7 @@ pub fn cases(opts: &Opts) -> Vec<Case> {
     for c in ops::corpus() {
         out.push(Case { name: c.name, files: c.files, predicted: c.expected_out.filter(|o| !o.contains("goroutine 1 [running]") && !o.contains("command-line-arguments")) });
     }
-    let ngen = opts.n(150, 5000);
+    let ngen = opts.n(1500, 12000);
     for i in 0..ngen {
         let mut p = Prng::derive(opts.seed, i as u64, "c14-project");
         let cfg = GenCfg::swarm(&mut p);
